@@ -7,7 +7,7 @@ NOT_APPLICABLE = {
     'C14': 'quantifies over rayon thread schedules; Kani has no threads and Verus cannot see rayon; the reachable fragment (commutativity/associativity of vector addition) is decided under C13 (DESIGN.md §5)',
     'C15': 'statement about exact probability laws over all random tapes; neither verifier has a probabilistic logic and the num-bigint/num-rational arithmetic would be all assumed contracts (DESIGN.md §5)',
 }
-for _p in ['C01', 'C03', 'C04', 'C06', 'C10', 'C11', 'C12', 'C17']:
+for _p in ['C01', 'C06', 'C10', 'C11', 'C17']:
     NOT_APPLICABLE[_p] = _PENDING
 
 TEXT = {
@@ -75,5 +75,23 @@ TEXT = {
         'note': 'The Poplar1 rule and prefix-list validation operate on bitvec values and are not decided by this family here.',
         'technique': 'function contracts on extracted real code (Verus)',
         'design_ref': 'DESIGN.md §4 C20',
+    },
+    'C12': {
+        'text': 'Per-transition contracts, bounded in message size. The ping-pong routines are generic over the aggregator; they are verified against a harness-defined aggregator whose verify_init/verify_next/combiner answers are arbitrary (any round count, any failure) and which records what it is handed, so the result holds for every aggregator implementation, including the share-order clause that no shipped VDAF can observe. Each of leader_initialized, helper_initialized, continued, evaluate and the continuation codec carries the full state-machine contract (refusals, order, exact values, no output share on error, evaluate is pure).',
+        'note': 'Messages and shares are <= 2 bytes in the harness (the routines never inspect them). Whole-exchange equivalence with a broadcast execution is the composition of the per-transition contracts and is not mechanised.',
+        'technique': 'assume-guarantee contracts on real generic code instantiated with a recording nondeterministic trait implementation (Kani)',
+        'design_ref': 'DESIGN.md §4 C12',
+    },
+    'C04': {
+        'text': 'Partial: deterministic guards and the sketch algebra. Kani proves on the real Poplar1 code the formula of finish_sketch (incl. the leader/helper asymmetry), the zero-test and length guards of next_message, the share-count/field-type guards of verifier_shares_to_message and the (state, message) variant matching of verify_next (output share only from RoundTwo + Done). Verus proves, over those contracts, that the honest sketch sums to zero and that a programmed value d != 0,1 leaves the residue (d^2-d) r^2.',
+        'note': 'Rejection of every malformed vector holds only up to the Schwartz-Zippel error: probabilistic, not decided. IdpfPublicShare canonical decoding touches bitvec and is not covered.',
+        'technique': 'function contracts on real code (Kani) + algebraic lemmas over the contracts (Verus nonlinear arithmetic)',
+        'design_ref': 'DESIGN.md §4 C04',
+    },
+    'C03': {
+        'text': 'Partial: the honest-case algebra and arithmetic safety. The two-round sketch accepts honest one-hot and all-zero vectors for ANY correlated randomness (Verus lemma over the finish_sketch/next_message contracts that Kani proves on the real code); Poplar1AggregationParam length arithmetic is exact for every u16 level. A u16 overflow in the level-dependent fast-forward of verify_init (levels > 21845) was found and repaired.',
+        'note': 'End-to-end correctness over all levels/prefix sets and the heavy-hitters driver depend on IDPF evaluation over bitvec inputs: not decided (DESIGN.md R3). See C06 for the per-level IDPF step.',
+        'technique': 'algebraic lemmas over function contracts (Verus) + contract harnesses on real code (Kani)',
+        'design_ref': 'DESIGN.md §4 C03',
     },
 }
